@@ -1,6 +1,7 @@
 package api
 
 import (
+	"math"
 	"time"
 
 	"github.com/inconshreveable/log15"
@@ -300,6 +301,13 @@ func (l *LedgerApi) GetFrontierMomentum() (*Momentum, error) {
 	return ledgerMomentumToRpc(momentum)
 }
 func (l *LedgerApi) GetMomentumBeforeTime(timestamp int64) (*Momentum, error) {
+	// the store compares nanoseconds, keep the timestamp inside the range which fits in an int64
+	const maxTimestamp = math.MaxInt64 / int64(time.Second)
+	if timestamp > maxTimestamp {
+		timestamp = maxTimestamp
+	} else if timestamp < -maxTimestamp {
+		timestamp = -maxTimestamp
+	}
 	currentTime := time.Unix(timestamp, 0)
 	momentum, err := l.chain.GetFrontierMomentumStore().GetMomentumBeforeTime(&currentTime)
 	if err != nil || momentum == nil {
